@@ -21,6 +21,8 @@ Contract == [ sift |-> "SingleSignal", ensemble_sift |-> "SingleSignal", complet
               frequency_transform |-> "VectorOrColumn", get_cycle_vector |-> "VectorOrColumn",
               hilberthuang |-> "EqualLen", hilberthuang_1d |-> "EqualLenColumns", holospectrum |-> "EqualLenColumns",
               get_cycle_stat |-> "EqualLen", phase_align |-> "EqualLen", bin_by_phase |-> "EqualLen",
+              \* the weighted form: phase, data AND a vector of weights (three arrays checked against each other)
+              bin_by_phase_weighted |-> "EqualLen",
               amplitude_normalise |-> "Columns",
               \* second-level stacks [samples x first-level x second-level] for the routines that document them
               amplitude_normalise_3d |-> "Columns", frequency_transform_nht_3d |-> "Columns",
